@@ -1,21 +1,196 @@
 (* C02 — partition-improving algorithms keep a valid partition valid.
-   Collected per-algorithm theorems (VnBest/VnFirst: C14, FM: C07, KL: C15,
-   ArcSwap: C05 — added here as those developments land) + the abstract
-   k-means model + the exact validity checker. *)
-From Coupe Require Import Lib.Prelude Lib.Report Model.KMeansAbs Run.RunC02 Proofs.C02Proofs.
+
+   One theorem per improving algorithm, ABOUT THE MODEL OF THAT ALGORITHM (the
+   model the check of the algorithm's own property ties to the code: C14
+   VnBest/VnFirst, C07 FiducciaMattheyses, C15 KernighanLin, C05 ArcSwap), of
+   the shape
+
+     usage contract -> the model returns Ok p' /\ length p' = length p
+                       /\ no id of p' above the largest id of p
+                          (two-way algorithms: within {0,1})
+
+   (Ok excludes Panic and OutOfFuel), plus the abstract k-means model and the
+   exact validity checker.  This file only collects: every theorem is closed
+   by [exact] of a lemma of Proofs/C02Collect.v (projections of the theorems of
+   the algorithm's own development) or of Proofs/C02Proofs.v.  Partial results
+   are named [..._partial] and say what is missing.  [list_maxN p] = the
+   largest id of [p] (0 for the empty array). *)
+From Coupe Require Import Lib.Prelude Lib.SFloat Lib.Report Model.KMeansAbs Run.RunC02 Proofs.C02Proofs.
+From Coupe Require Proofs.C02Collect.
+From Coupe Require Lib.Graph Model.Vn Model.Fm Proofs.FmProofs Proofs.FmNoPanic Model.Kl Model.ArcSwap Proofs.ArcSwapTerm.
+Import C02Collect.
 
 Theorem C02_checker : forall bound n p,
   check_valid bound n p = true <-> (length p = n /\ Forall (fun x => (x <= bound)%N) p).
 Proof. exact check_valid_spec. Qed.
 Print Assumptions C02_checker.
 
-(* KMeans, PARTIAL: about the abstract model (numeric core = arbitrary oracle) *)
+(* ------------------------------------------------------------------ VnBest *)
+
+(* matching lengths, non-negative weights (flt: the weights are f64 holding
+   integers): Ok -- no error, no panic, the loop ends within its fuel (1 + the
+   sum of the squared part loads, built into the model) -- same length, no id
+   above the input's maximum *)
+Theorem C02_vnbest : forall flt ws p, length ws = length p -> Forall (fun w => (0 <= w)%Z) ws ->
+  exists p' n, Vn.vn_best flt ws p = Ok (p', n)
+    /\ length p' = length p /\ Forall (fun x => (x <= list_maxN p)%N) p'.
+Proof. exact VnC.vnbest_collect. Qed.
+Print Assumptions C02_vnbest.
+
+(* whatever the input (mismatched lengths and negative weights included): never
+   a panic, never out of fuel, and an Ok result is valid *)
+Theorem C02_vnbest_any_input : forall flt ws p,
+  (forall s, Vn.vn_best flt ws p <> Panic s) /\ Vn.vn_best flt ws p <> OutOfFuel
+  /\ (forall p' n, Vn.vn_best flt ws p = Ok (p', n) ->
+        length p' = length p /\ Forall (fun x => (x <= list_maxN p)%N) p').
+Proof. exact VnC.vnbest_any_input. Qed.
+Print Assumptions C02_vnbest_any_input.
+
+(* ----------------------------------------------------------------- VnFirst *)
+
+(* non-negative weights, matching lengths: Ok (the scan ends within len + 1
+   turns), same length, no id above the input's maximum *)
+Theorem C02_vnfirst : forall ws p, Forall (fun w => (0 <= w)%Z) ws -> length ws = length p ->
+  exists p' n, Vn.vn_first ws p = Ok (p', n)
+    /\ length p' = length p /\ Forall (fun x => (x <= list_maxN p)%N) p'.
+Proof. exact VnC.vnfirst_collect. Qed.
+Print Assumptions C02_vnfirst.
+
+(* ------------------------------------------------------ FiducciaMattheyses *)
+
+(* Contract (FmProofs.fm_contract): square CSR matrix with in-range sorted
+   columns, symmetric, no self-loop, non-negative integer edge weights, vertex
+   weights >= 0; the weight cap converts to i64.  For EVERY oracle [orc] (the
+   per-process random iteration order of the gain buckets; the model accepts
+   exactly the choices the code may make), every parameter setting and every
+   fuel >= fm_fuel (initial cut + 2 passes): no panic, no fuel exhaustion, and
+   a completed run returns an array of the same length within {0,1}.
+   (The entry point itself answers a non-two-way input with an error.) *)
+Theorem C02_fm : forall cfg fuel g ws p0 orc cap,
+  FmProofs.fm_contract g ws p0 ->
+  Fm.fm_cap (Fm.fm_max_imb cfg) (Fm.load ws p0 0, Fm.load ws p0 1) = Some cap ->
+  (Fm.fm_fuel g p0 <= fuel)%nat ->
+  (forall s, Fm.fm cfg fuel g ws p0 orc <> Panic s)
+  /\ Fm.fm cfg fuel g ws p0 orc <> OutOfFuel
+  /\ (forall p mpp rpp, Fm.fm cfg fuel g ws p0 orc = Ok (Fm.FmOk p mpp rpp) ->
+        length p = length p0 /\ Forall (fun x => (x <= 1)%N) p).
+Proof. exact FmC.fm_collect. Qed.
+Print Assumptions C02_fm.
+
+(* ... and the statement is not vacuous for any input of the contract: some
+   oracle is accepted to the end *)
+Theorem C02_fm_execution_exists : forall cfg g ws p0 cap,
+  FmProofs.fm_contract g ws p0 -> length ws = length p0 -> Fm.two_way p0 ->
+  Fm.fm_cap (Fm.fm_max_imb cfg) (Fm.load ws p0 0, Fm.load ws p0 1) = Some cap ->
+  exists orc p mpp rpp, Fm.fm cfg (Fm.fm_fuel g p0) g ws p0 orc = Ok (Fm.FmOk p mpp rpp).
+Proof. exact FmNoPanic.fm_execution_exists. Qed.
+Print Assumptions C02_fm_execution_exists.
+
+(* ------------------------------------------------------------ KernighanLin *)
+
+(* [KlC.kl_impl] = Kl.kl at the three flags read from kernighan_lin.rs, as in
+   Properties/C15.v.
+
+   PARTIAL with respect to the property's quantifier ("all valid initial
+   partitions"): proved for inputs with AT MOST TWO part ids in use (two
+   non-empty parts, one part, or the empty input).  Then, for a square matrix
+   with in-range columns and non-negative edge weights, one weight per vertex,
+   every value of the three limits and every fuel >= kl_fuel (initial cut + 2
+   passes): Ok, same length, every id labels as many vertices as before --
+   hence only ids of the input occur, none above its maximum; for a valid
+   two-part input the result stays within {0,1}.
+   What is missing: with three or more ids in use the code reaches
+   `unimplemented!()` (open known finding kl-not-two-parts; the model panics
+   there too), so C02 does NOT hold of KernighanLin on those inputs. *)
+Theorem C02_kl_two_parts_partial : forall mp mf mb fuel g wlen p,
+  Graph.wf_graph g (length p) -> Graph.nonneg_edges g -> (length p <= wlen)%nat ->
+  (length (Kl.uniq [] p) <= 2)%nat -> (Kl.kl_fuel g p <= fuel)%nat ->
+  exists q, KlC.kl_impl mp mf mb fuel g wlen p = Ok q
+    /\ length q = length p /\ Kl.same_sizes p q
+    /\ Forall (fun x => In x p) q /\ Forall (fun x => (x <= list_maxN p)%N) q.
+Proof. exact KlC.kl_collect. Qed.
+Print Assumptions C02_kl_two_parts_partial.
+
+(* ----------------------------------------------------------------- ArcSwap *)
+
+(* The machine of Model/ArcSwap.v executes one shared-memory access of one
+   worker per step; a schedule is any list of worker ids.  [config_of hr g vw
+   p0 T cap] = the configuration arc_swap derives from its arguments and the
+   pool size T (part_count = max(2, 1 + largest input id)).
+
+   In EVERY state reachable under EVERY schedule, for any per-thread share
+   function [hr], symmetric integer-weighted graph: the array keeps its length
+   and every id is below part_count; so for an input with at least two parts no
+   id exceeds the input's maximum.  (For a one-part input the bound proved is
+   1, not 0: that no move happens there is not proved.) *)
+Theorem C02_arcswap_ids : forall hr g vw p0 T cap st0 sch st,
+  ArcSwap.graph_ok g -> length p0 = length g ->
+  let cf := ArcSwap.config_of hr g vw p0 T cap in
+  ArcSwap.init_state cf p0 = Some st0 -> ArcSwap.run cf st0 sch = Some st ->
+  length (ArcSwap.g_part st) = length p0
+  /\ Forall (fun x => (x < ArcSwap.part_count p0)%nat) (ArcSwap.g_part st)
+  /\ ((1 <= ArcSwap.list_max_nat p0)%nat ->
+      Forall (fun x => (x <= ArcSwap.list_max_nat p0)%nat) (ArcSwap.g_part st)).
+Proof. exact AsC.arcswap_ids. Qed.
+Print Assumptions C02_arcswap_ids.
+
+(* PARTIAL.  No panic, no deadlock, no hang, for arc_swap's configuration with
+   the EXACT per-thread share (headroom_quot): the prologue does not panic;
+   from every reachable state in which the outer loop has not exited every
+   worker that is not done can perform its next access (no index out of
+   bounds, no `unwrap` on None) and some worker can move; there is no infinite
+   schedule (the one-more-access relation is well founded); every reachable
+   state can be run to completion; ids and length as above.
+   What is missing / assumed: sequential consistency of the atomics (the
+   interleaving semantics itself); the share the code computes in f64 is
+   covered only where it equals the exact quotient (headroom_checked, C05);
+   integer i64 weights (unsigned weights: open known finding of C05). *)
+Theorem C02_arcswap_partial : forall g vw p0 T cap,
+  ArcSwap.graph_ok g -> length vw = length g -> length p0 = length g -> (1 <= length g)%nat -> (1 <= T)%nat ->
+  let cf := ArcSwap.config_of ArcSwap.headroom_quot g vw p0 T cap in
+  ArcSwap.init_state cf p0 <> None /\
+  forall st0 sch st, ArcSwap.init_state cf p0 = Some st0 -> ArcSwap.run cf st0 sch = Some st ->
+    (ArcSwap.g_fin st = false ->
+       (forall t w, nth_opt (ArcSwap.g_ws st) t = Some w -> ArcSwap.w_pc w <> ArcSwap.PDone ->
+                    ArcSwap.step cf st t <> None)
+       /\ exists t st', ArcSwap.step cf st t = Some st')
+    /\ Acc (ArcSwapTerm.step_rel cf) st
+    /\ (forall f : nat -> nat, exists m, ArcSwap.run cf st (map f (seq 0 m)) = None)
+    /\ (exists sch' st', ArcSwap.run cf st sch' = Some st' /\ ArcSwap.g_fin st' = true)
+    /\ length (ArcSwap.g_part st) = length p0
+    /\ Forall (fun x => (x < ArcSwap.part_count p0)%nat) (ArcSwap.g_part st).
+Proof. exact AsC.arcswap_runs. Qed.
+Print Assumptions C02_arcswap_partial.
+
+(* ------------------------------------------------------------------ KMeans *)
+
+(* PARTIAL: about the abstract model (numeric core = arbitrary oracle): for
+   EVERY oracle the output keeps its length and uses only ids of the input.
+   What is missing: the arithmetic of k-means (distances, influences, bounds)
+   is not modelled; panic-freedom and termination are only what the abstract
+   model shows (structural recursion on the iteration limits; `Panic 1` =
+   the centre of an empty cluster, excluded for valid inputs by the model's
+   precondition). *)
 Theorem C02_kmeans_abs_partial : forall o mi mb p p',
   kmeans_abs o mi mb p = Ok p' ->
   length p' = length p /\ Forall (fun x => In x p) p' /\ Forall (fun x => (x <= list_maxN p)%N) p'.
 Proof. exact kmeans_abs_ids. Qed.
 Print Assumptions C02_kmeans_abs_partial.
 
+(* ------------------------------------------------------------ non-vacuity *)
 Example C02_nonvacuous :
   kmeans_abs (fun _ _ i => if Nat.eqb i 0 then Some 1%nat else None) 1 1 [0;1;1;0]%N = Ok [1;1;1;0]%N.
 Proof. vm_compute. reflexivity. Qed.
+
+(* runs of the combinatorial models inside their contracts *)
+Example C02_nonvacuous_vn :
+  Vn.vn_best false [4;7;1;8;3;3;9]%Z [0;0;0;1;1;2;0]%N = Ok ([0;0;0;1;1;2;2]%N, 1%N)
+  /\ Vn.vn_first [9;1;8;0;0]%Z [0;0;2;3;1]%N = Ok ([0;3;2;3;1]%N, 1%N).
+Proof. vm_compute. auto. Qed.
+
+Definition ex_path4 : Graph.graph :=
+  [[(1%nat, 1)]; [(0%nat, 1); (2%nat, 1)]; [(1%nat, 1); (3%nat, 1)]; [(2%nat, 1)]]%Z.
+Example C02_nonvacuous_kl :
+  Graph.wf_graphb ex_path4 4 = true /\ Kl.uniq [] [0;1;0;1]%N = [0;1]%N
+  /\ KlC.kl_impl None None 1%N (Kl.kl_fuel ex_path4 [0;1;0;1]%N) ex_path4 4 [0;1;0;1]%N = Ok [0;0;1;1]%N.
+Proof. vm_compute. auto. Qed.
